@@ -393,7 +393,7 @@ class Executor(object):
                 res = self.op_rule(tid, req)
                 n += 1
                 del res
-            self._count('cache_prewarm', n)
+            self._count('cache_flood' if op.get('flood') else 'cache_prewarm', n)
         return None
 
     def op_dropgc(self, tid, op):
